@@ -29,7 +29,7 @@ ASSUMPTIONS = [
     "'no failure from a fix-capable rule' is taken from a solo reference scan of the same document with the same configuration; the set of fix-capable rules is read from `plugins list --all`",
     "probe-only fix runs are checked against a hand-verifiable model of the probe's two fixes",
 ]
-PROBES = ["readonly_op_with_fault", "fix_changed_some", "fix_changed_none", "fix_token_fix_probe", "fix_line_fix_probe", "readonly_after_logfile", "stdin_scan", "api_fix_string", "list_files", "rewrite_identical_bytes", "fix_multi_level"]
+PROBES = ["readonly_op_with_fault", "fix_changed_some", "fix_changed_none", "fix_token_fix_probe", "fix_line_fix_probe", "readonly_after_logfile", "stdin_scan", "api_fix_string", "list_files", "fix_multi_level"]
 
 READONLY_KINDS = ["scan", "scan", "scan-stdin", "list", "api-scan_path", "api-scan_string", "api-list_path", "sub-plugins", "sub-extensions", "sub-version"]
 FIX_KINDS = ["fix", "fix", "fix", "api-fix_path", "api-fix_string"]
@@ -346,9 +346,9 @@ def evaluate(sc):
                     if entry[1] in ("open-w", "copyfile", "rename") and entry[2] == "target" and entry[3][4:] not in changed:
                         stats["rewrite_identical_bytes"] += 1
                         break
-                copies = sum(1 for entry in events.get(index, []) if entry[1] in ("copyfile", "rename") and entry[2] == "target")
+                copies = sum(1 for entry in events.get(index, []) if entry[1] == "copyfile" and entry[2] in ("target", "work-new"))
                 if copies > len(changed) and changed:
-                    stats["fix_multi_level"] += 1
+                    stats["fix_multi_level"] += 1  # some file was written by more than one fix level
         if op.get("logfile"):
             earlier_logfile = True
     # whole-run: tree snapshot and leftovers
